@@ -23,6 +23,14 @@ def atomizer(f, index_vars=()):
                 return None
             if k == "DeclRefExpr" and n["decl"]["kind"] == "Var" and "cv" in n and n["decl"]["name"] not in index_vars:
                 return None
+            if k == "DeclRefExpr" and n["decl"]["kind"] == "Var" and n["decl"]["name"] not in index_vars:
+                # a local with a single initialising definition and no later assignment stands for that definition (name-independent)
+                d = _single_def(ff, n["decl"]["id"])
+                if d is not None:
+                    s = _render_norm(ff, d, pidx)
+                    for v in index_vars:
+                        s = re.sub(r"\[%s\]" % re.escape(v), "[#]", s)
+                    return "{%s}" % s.replace(" ", "")
             if k in ("CXXOperatorCallExpr",) and n.get("opcall") not in ("[]", "()"):
                 return None
             s = _render_norm(ff, j, pidx)
@@ -31,6 +39,27 @@ def atomizer(f, index_vars=()):
             return s
         return None
     return atomize
+
+
+def _single_def(f, vid):
+    init = None
+    for i in f.walk():
+        if f.k(i) == "DeclStmt":
+            for d in f.nodes[i]["decls"]:
+                if d.get("id") == vid and d.get("init", -1) >= 0:
+                    init = d["init"]
+        ap = ts.assign_parts(f, i)
+        if ap:
+            l = f.strip(ap[0])
+            if f.k(l) == "DeclRefExpr" and f.nodes[l]["decl"].get("id") == vid:
+                return None
+    if init is None:
+        return None
+    # only definitions that are more than a constant or another plain variable
+    j = f.strip(init)
+    if f.k(j) in ("IntegerLiteral", "DeclRefExpr", "CXXBoolLiteralExpr", "FloatingLiteral"):
+        return None
+    return init
 
 
 def _render_norm(f, j, pidx):
@@ -80,14 +109,33 @@ def guards_of(f, index_hint=("i", "j", "dim", "n")):
 
 
 def P_(s):
-    """tiny parser for required forms: 'a - 2*b - 2' with atoms separated by + / - and integer coefficients."""
+    """tiny parser for required forms: 'a - 2*b - 2' with atoms separated by top-level + / - (text inside {...} is one atom)."""
     p = Poly()
     s = s.replace(" ", "")
-    for m in re.finditer(r"([+-]?)(?:(\d+)\*)?([^+-]+)", s):
-        sign, coef, atom = m.groups()
-        c = int(coef) if coef else 1
-        if sign == "-":
-            c = -c
+    terms = []
+    cur = ""
+    depth = 0
+    for ch in s:
+        if ch in "{([":
+            depth += 1
+        elif ch in "})]":
+            depth -= 1
+        if ch in "+-" and depth == 0 and cur:
+            terms.append(cur)
+            cur = ch
+        else:
+            cur += ch
+    if cur:
+        terms.append(cur)
+    for t in terms:
+        sign = -1 if t.startswith("-") else 1
+        t = t.lstrip("+-")
+        m = re.match(r"(\d+)\*(.+)$", t)
+        c = sign
+        atom = t
+        if m:
+            c = sign * int(m.group(1))
+            atom = m.group(2)
         if re.fullmatch(r"\d+", atom):
             p = p + Poly.const(c * int(atom))
         else:
@@ -145,7 +193,7 @@ FIT_OBLIGATIONS = [
     ("penalty-count", "penaltyOrder[i] / penaltyOrder[0]", "&&",
      [(P_("$6.size() - $0.ndim"), "!=0"), (P_("$6.size() - 1"), "!=0")], None),
     ("index-range", "data.i[i][.] must be below data.ranges[i] (basis matrix rows)", "leaf",
-     [(P_("$0.ranges[#] - maxIdx - 1"), "<0")], ("$0.ndim",)),
+     [(P_("$0.ranges[#] - {(*max_element($0.i[#],($0.i[#]+$0.rows)))} - 1"), "<0")], ("$0.ndim",)),
     ("coords-length", "bsplinebasis reads data.ranges[i] abscissae from coords[i]", "leaf",
      [(P_("$2[#].size() - $0.ranges[#]"), "<0")], ("$0.ndim",)),
     ("knots-vs-order", "naxes = nknots-order-1 is unsigned and sizes every array; evaluation needs 2*order+2 knots", "leaf",
@@ -155,7 +203,7 @@ FIT_OBLIGATIONS = [
     ("monodim-range", "monodim indexes the dimensions", "&&",
      [(P_("$7 - no_monodim"), "!=0"), (P_("$0.ndim - $7 - 1"), "<0")], None),
     ("penalty-vs-order", "divided_diffs: order-sized stack arrays indexed by the penalty order, division by order-(porder-1)", "leaf",
-     [(P_("$3[#] - porder"), "<0")], ("$0.ndim",)),
+     [(P_("$3[#] - {(($6.size()>1)?$6[#]:$6[0])}"), "<0")], ("$0.ndim",)),
     ("non-empty", "max_element of an empty range / strides[ndim-1]", "||",
      [(P_("$0.ndim"), "==0"), (P_("$0.rows"), "==0")], None),
 ]
@@ -231,23 +279,12 @@ def vg1(P, C):
                 if ok:
                     detail = "guard `%s` throws; dominates the first member store at %s" % (g["text"][:80], f.loc(first_store))
             C.ob("VG-1", name, oid, ok, where, detail)
-        # auxiliary definitions used by the guards: maxIdx = *max_element(data.i[i], data.i[i]+data.rows); porder = penaltyOrder[...]
-        defs = {}
-        for i in f.walk():
-            if f.k(i) == "DeclStmt":
-                for d in f.nodes[i]["decls"]:
-                    if d.get("name") in ("maxIdx", "porder") and d.get("init", -1) >= 0:
-                        pidx = {p["id"]: k for k, p in enumerate(f.params)}
-                        defs[d["name"]] = _render_norm(f, d["init"], pidx)
-        ok = re.sub(r"\[\w+\]", "[#]", defs.get("maxIdx", "")).replace(" ", "") == "(*max_element($0.i[#],($0.i[#]+$0.rows)))"
-        C.ob("VG-1", name, "maxIdx-definition", ok, f.where(), "maxIdx is the maximum index used in the dimension: %s" % defs.get("maxIdx"))
+        # the penalty order that is checked is the expression that is passed on to the fitter
         want = "(($6.size()>1)?$6[#]:$6[0])"
-        ok = re.sub(r"\[[a-z]\w*\]", "[#]", defs.get("porder", "")).replace(" ", "") == want
-        # the same selection expression must be what is passed to add_penalty_term
         passed = [re.sub(r"\[[a-z]\w*\]", "[#]", _render_norm(f, f.args(i)[5], {p["id"]: k for k, p in enumerate(f.params)})).replace(" ", "")
                   for i, cal in f.calls() if cal and cal["name"] == "add_penalty_term"]
-        C.ob("VG-1", name, "porder-definition", ok and passed == [want], f.where(),
-             "the penalty order that is checked is the one that is used: checked %s, passed to add_penalty_term %s" % (defs.get("porder"), passed))
+        C.ob("VG-1", name, "porder-passed", passed == [want], f.where(),
+             "the penalty order selected per dimension (one entry broadcast, or one per dimension) is what add_penalty_term receives: %s" % passed)
 
 
 # ---------------------------------------------------------------- VG-2: reader
